@@ -20,7 +20,7 @@ def sh(cmd, cwd, timeout=1800):
     # private TMPDIR: some baseline tests list osv-scalibr-* entries of the temp dir and are flaky
     # when other worktrees run the same tests concurrently
     env = dict(ENV, TMPDIR=PRIV_TMP) if PRIV_TMP else ENV
-    p = subprocess.run(cmd, shell=True, cwd=cwd, env=env, stdout=subprocess.PIPE, stderr=subprocess.STDOUT, text=True, timeout=timeout)
+    p = subprocess.run(cmd, shell=True, cwd=cwd, env=env, stdout=subprocess.PIPE, stderr=subprocess.STDOUT, text=True, errors="replace", timeout=timeout)
     return p.returncode, p.stdout
 
 
